@@ -234,7 +234,8 @@ func (f *defaultFactory) doCreateComponent(name string, meta *component_definiti
 				f.logger().Tracef("early singleton reference with name '%s' has been injected into components %s", name, dependents)
 				var actualDependents []string
 				for _, dependent := range dependents {
-					if !f.singletonComponentRegistry.IsSingletonCurrentlyInCreation(dependent) {
+					//the component itself is still in creation, but when it holds its own early reference it keeps a stale version too
+					if dependent == name || !f.singletonComponentRegistry.IsSingletonCurrentlyInCreation(dependent) {
 						actualDependents = append(actualDependents, dependent)
 					}
 				}
